@@ -170,8 +170,8 @@ def step (s0 : MState) (j : Json) : MState × Json :=
     -- observable of `clone()`: the supports of the regenerated indices
     let m := (cleanup { s with idx := regen s.defs }).idx
     (s, obs { s with idx := m } none [])
-  | some "freeze" => let s1 := { s with frozen := true }; (s1, obs s1 none [])
-  | some "unfreeze" => let s1 := { s with frozen := false }; (s1, obs s1 none [])
+  | some "freeze" => let s1 := Manager.setF true s; (s1, obs s1 none [])
+  | some "unfreeze" => let s1 := Manager.setF false s; (s1, obs s1 none [])
   | some "load" =>
     match fieldBool j "overwrite", fieldArr j "pairs" with
     | some ow, some pairs =>
